@@ -258,7 +258,7 @@ pub fn clauses(sc: &EvSc, log: &[L]) -> Result<(), String> {
 	if !still_busy {
 		let last_exit = busy.iter().map(|b| b.2).max().unwrap_or(0);
 		for a in &arr {
-			if in_batch(a.0).is_none() && end_t > a.3.max(last_exit) + thr + SLACK {
+			if in_batch(a.0).is_none() && end_t > (a.3.max(last_exit)).saturating_add(thr).saturating_add(SLACK) {
 				return Err(format!("event #{} received at t{} is still undelivered at t{end_t}", a.0, a.3));
 			}
 		}
